@@ -2185,6 +2185,14 @@ static program_t *epilog ()
   ident_hash_elem_t *ihe;
   program_t *prog;
 
+  /* Code addresses are 16 bit (function_address_t, program_size, the offsets find_line() works with): a bigger
+   * program cannot be represented.  Refuse it; the function addresses used to wrap silently and the wrong code ran.
+   * (The variable initialisers are appended to the program below, followed by their return.) */
+  UPDATE_PROGRAM_SIZE;
+  if (!num_parse_error && !inherit_file
+      && mem_block[A_PROGRAM].current_size + mem_block[A_INITIALIZER].current_size + 8 > USHRT_MAX)
+    yyerror ("Program too large: more than 65535 bytes of code.");
+
   if (num_parse_error > 0 || inherit_file)
     {
       /* don't print these; they can be wrong, since we didn't parse the
